@@ -1131,7 +1131,13 @@ func (nw *zzvNet) reset(tr *zzvTracer, all []string) {
 			hops[a] = n.hops
 		}
 	}
-	tr.ev(map[string]any{"ev": "Reset", "up": up, "loc": loc, "hops": hops})
+	kind := map[string]string{}
+	for _, ids := range loc {
+		for _, id := range ids {
+			kind[id] = map[string]string{"cidr": "c", "dom": "d", "fwd": "f"}[zzvRealRoute(id).kind]
+		}
+	}
+	tr.ev(map[string]any{"ev": "Reset", "up": up, "loc": loc, "hops": hops, "kind": kind})
 }
 
 // traced actions: perform on the real network and log the event for TraceFlood.tla
